@@ -156,6 +156,9 @@ class Formatter(FormatterInterface):
     def _(self, oper: L.Not | L.Neg) -> str:
         """Format a unary operation."""
         arg = self(oper.arg)
+        if isinstance(oper, L.Not):
+            # Python spells it 'not', which binds weaker than comparisons and arithmetic
+            return f"(not ({arg}))"
         # NOTE: a negative literal starts with '-': '--2.0' would be a decrement in C
         if oper.arg.precedence >= oper.precedence or arg.startswith(oper.op):
             return f"{oper.op}({arg})"
@@ -247,7 +250,9 @@ class Formatter(FormatterInterface):
             "acos": "arccos",
             "asin": "arcsin",
             "atan": "arctan",
-            "atan2": "arctan2",
+            "atan_2": "arctan2",
+            "min_value": "minimum",
+            "max_value": "maximum",
             "acosh": "arccosh",
             "asinh": "arcsinh",
             "atanh": "arctanh",
